@@ -19,6 +19,7 @@ deriving Repr, DecidableEq, Inhabited
 inductive BV
   | i (v : Int)   -- i64 term
   | u (v : Nat)   -- u64 term
+  | f (h : Int)   -- f64 term with the value h / 2 (halves are exact in binary64 for |h| < 2^53)
 deriving Repr, DecidableEq, Inhabited
 
 inductive B | incl (v : BV) | excl (v : BV) | unb
@@ -26,14 +27,17 @@ deriving Repr, DecidableEq, Inhabited
 
 def I64MAX : Int := 2 ^ 63 - 1
 
-def BV.toInt : BV → Int
-  | .i v => v
-  | .u v => (v : Int)
+/-- twice the numeric value of the bound (an integer for all three kinds) -/
+def BV.twice : BV → Int
+  | .i v => 2 * v
+  | .u v => 2 * (v : Int)
+  | .f h => h
 
 /-- the term really has the type it claims -/
 def BV.wf : BV → Prop
   | .i v => -(2 ^ 63) ≤ v ∧ v ≤ I64MAX
   | .u v => v < 2 ^ 64
+  | .f h => -(2 ^ 53) < h ∧ h < 2 ^ 53
 
 def B.wf : B → Prop
   | .incl v => v.wf
@@ -52,6 +56,9 @@ def inCol : ColT → Int → Prop
   | .i64, v => -(2 ^ 63) ≤ v ∧ v ≤ I64MAX
   | .u64, v => 0 ≤ v ∧ v < 2 ^ 64
 
+/-- `f64::trunc` of h / 2 (toward zero) -/
+def truncHalf (h : Int) : Int := if 0 ≤ h then h / 2 else -((-h) / 2)
+
 /-- `TransformBound` -/
 inductive TB | new (b : BndN) | existing (n : Nat)
 
@@ -63,6 +70,12 @@ def lowerT (col : ColT) : BV → TB
   | .u v => (match col with
     | .u64 => .existing v
     | .i64 => if I64MAX < (v : Int) then .new (.excl I64MAX.toNat) else .existing (encI v))
+  -- transform_from_f64_bounds::<T>, lower: below T::min → Unbounded; integral → Existing(T::from_f64);
+  -- fractional → Included(T::from_f64(trunc)); (the `> T::max` case is outside |h| < 2^53)
+  | .f h =>
+    if col == .u64 && decide (h < 0) then .new .unb
+    else if h % 2 = 0 then .existing (enc col (h / 2))
+    else .new (.incl (enc col (truncHalf h)))
 
 /-- the closure applied to an upper bound -/
 def upperT (col : ColT) : BV → TB
@@ -72,6 +85,12 @@ def upperT (col : ColT) : BV → TB
   | .u v => (match col with
     | .u64 => .existing v
     | .i64 => if I64MAX < (v : Int) then .new .unb else .existing (encI v))
+  -- transform_from_f64_bounds::<T>, upper: below T::min → Unbounded (!); integral → Existing;
+  -- fractional → Included(T::from_f64(trunc))
+  | .f h =>
+    if col == .u64 && decide (h < 0) then .new .unb
+    else if h % 2 = 0 then .existing (enc col (h / 2))
+    else .new (.incl (enc col (truncHalf h)))
 
 /-- `transform_bound_inner`: a new bound replaces the old one, an existing value keeps its kind -/
 def applyT (f : BV → TB) : B → BndN
@@ -89,12 +108,12 @@ def implMatch (col : ColT) (lo hi : B) (v : Int) : Bool :=
 /-- the numeric meaning of the range -/
 def specMatch (lo hi : B) (v : Int) : Bool :=
   (match lo with
-   | .incl b => decide (b.toInt ≤ v)
-   | .excl b => decide (b.toInt < v)
+   | .incl b => decide (b.twice ≤ 2 * v)
+   | .excl b => decide (b.twice < 2 * v)
    | .unb => true) &&
   (match hi with
-   | .incl b => decide (v ≤ b.toInt)
-   | .excl b => decide (v < b.toInt)
+   | .incl b => decide (2 * v ≤ b.twice)
+   | .excl b => decide (2 * v < b.twice)
    | .unb => true)
 
 /-- the one combination in which the pinned conversion is not exact: a u64 lower bound above
@@ -103,6 +122,17 @@ by "value ≥ 0" in the column's encoded space instead of "nothing" -/
 def lowerOk (col : ColT) : B → Bool
   | .incl (.u v) => !(col == .i64 && decide (I64MAX < (v : Int)))
   | .excl (.u v) => !(col == .i64 && decide (I64MAX < (v : Int)))
+  -- a positive fractional f64 lower bound is replaced by Included(trunc), which admits trunc < bound
+  | .incl (.f h) => !(decide (0 < h) && decide (h % 2 ≠ 0))
+  | .excl (.f h) => !(decide (0 < h) && decide (h % 2 ≠ 0))
+  | _ => true
+
+/-- f64 upper bounds for which the pinned conversion is not exact: below the minimum of a u64
+column the bound becomes Unbounded (everything matches instead of nothing); a negative fractional
+upper bound becomes Included(trunc) with trunc > bound -/
+def upperOk (col : ColT) : B → Bool
+  | .incl (.f h) => !(col == .u64 && decide (h < 0)) && !(decide (h < 0) && decide (h % 2 ≠ 0))
+  | .excl (.f h) => !(col == .u64 && decide (h < 0)) && !(decide (h < 0) && decide (h % 2 ≠ 0))
   | _ => true
 
 /-- numeric type the columnar writer gives a JSON path in a segment
